@@ -37,11 +37,19 @@ def scenario(variant, maxdata):
     elif variant == 2:
         steps = [steps[4], steps[0], steps[6], steps[3]]
         steps[0]["size"] = 20000
-    return {"dims": {"maxdata": maxdata, "remote": "small", "id_start": 0, "frag": "minus1", "empty_rate": 0.1, "noise": ["bg", "stale_clse"]}, "steps": steps}
+    elif variant == 3:
+        # a directory push (mkdir shell + one sync stream per file, one of them multi-WRTE), then a one-packet shell
+        steps = [{"op": "pushdir", "path": "/pd", "files": [["one", 40, "file"], ["two", 9000, "file"], ["sub", 1, "subdir"], ["three", 0, "file"]], "seed": "c12i", "mtime": 7, "mode": 0o100644},
+                 {"op": "shell", "cmd": "d", "decode": False, "chunks": [b"only-packet".hex()]}]
+    # early_close: the device's CLSE follows its last WRTE without waiting for the ack (as adbd does when the process exits), so an operation that loses
+    # an ack to a fault can still run into the end of the stream
+    return {"dims": {"maxdata": maxdata, "remote": "small", "id_start": 0, "frag": "minus1", "empty_rate": 0.1, "noise": ["bg", "stale_clse"], "early_close": variant != 1,
+                     # a transport timeout shorter than read_timeout_s (10 s): an injected timeout is over long before the operation's own deadline
+                     "dtt": None if variant == 1 else 1.0}, "steps": steps}
 
 
 def gen_cases(tier, seed):
-    variants = [0] if tier == "quick" else [0, 1, 2]
+    variants = [0, 3] if tier == "quick" else [0, 1, 2, 3]
     mds = [4096] if tier == "quick" else [4096, 8192, 65536, 1024 * 1024]
     for impl in ("sync", "async"):
         for var in variants:
@@ -53,7 +61,7 @@ def gen_cases(tier, seed):
 
 def run_session(impl, sc, seed, faults):
     """returns (sess, runner, results) with the session still open"""
-    sess = gen.make_session(impl, sc["dims"], seed, connect=False, faults=faults, budget=400000)
+    sess = gen.make_session(impl, sc["dims"], seed, connect=False, faults=faults, budget=400000, default_transport_timeout_s=sc["dims"].get("dtt"))
     r = scen.Runner(sess, sc)
     return sess, r
 
